@@ -5,6 +5,7 @@ tests green, and the check that must catch it.
 
 usage: selftest/mutants.py [name ...]      (writes selftest/mutants_results.json)
 """
+import hashlib
 import json
 import os
 import re
@@ -135,7 +136,7 @@ def main():
                              "harness": [l[:200] for l in c.stdout.splitlines() if l.startswith("HARNESS")][:2]}
             print("%-45s %s baseline=%s rc=%d %s" % (name, prop, passed[-1:] or "?", c.returncode, classes),
                   flush=True)
-            shutil.rmtree("/dev/shm/verif_scratch_replays", ignore_errors=True)
+            shutil.rmtree("/dev/shm/verif_scratch_" + hashlib.sha256(os.path.abspath(wt).encode()).hexdigest()[:10], ignore_errors=True)
     finally:
         sh(["git", "-C", "/repo", "worktree", "remove", "--force", wt])
     json.dump(results, open(out_path, "w"), indent=1, sort_keys=True)
